@@ -42,31 +42,52 @@ Example diff_update_two_modifications :
   diff [1; 2; 3] [7; 2; 9] = Ok (Modification 0 7) /\ update (Modification 0 7) [1; 2; 3] = [7; 2; 3].
 Proof. split; reflexivity. Qed.
 
-(** 5. quick_check_file after a notification that changed at most one chunk, when lowering succeeds: the cached
-       AST is the AST of the text the server saw, and every cached HIR chunk is the lowering of the AST chunk at
-       the same index (HIRDiff::new / update / fix keep the two lists aligned) *)
-Theorem quick_check_single :
+(** 5. quick_check_file patches its caches only when the computed diff describes the whole change ("fix:
+       quick_check_file patched its caches with a diff that did not describe the change").  When lowering succeeds,
+       afterwards the cached AST is either untouched or exactly the AST of the text the server saw — the latter
+       whenever at most one chunk changed — and every cached HIR chunk is the lowering of the AST chunk at the same
+       index (HIRDiff::new / update / fix keep the two lists aligned) *)
+Theorem quick_check_exact :
   forall (lower : chunk -> lowered) (cname : chunk -> Z) (hname : hchunk -> Z) (hfailed : hchunk -> bool)
          (D : Type) (s : fstate D) old hs,
   f_mod D s = Some {| e_ast := Some old; e_hir := Some hs |} ->
   aligned lower old hs ->
-  edit1 old (ast_of (f_text D s)) ->
   (forall c, In c (ast_of (f_text D s)) -> exists h, lower c = LSome h) ->
-  exists s' hs', quick_check lower cname hname hfailed D s = Ok s' /\
-    f_mod D s' = Some {| e_ast := Some (ast_of (f_text D s)); e_hir := Some hs' |} /\
-    aligned lower (ast_of (f_text D s)) hs'.
-Proof. exact quick_check_single_l. Qed.
+  exists s' a' hs', quick_check lower cname hname hfailed D s = Ok s' /\
+    f_mod D s' = Some {| e_ast := Some a'; e_hir := Some hs' |} /\
+    aligned lower a' hs' /\
+    (a' = old \/ a' = ast_of (f_text D s)) /\
+    (edit1 old (ast_of (f_text D s)) -> a' = ast_of (f_text D s)).
+Proof. exact quick_check_exact_l. Qed.
 
-(** KNOWN FINDING C29-quick-check-panics (known/C29.json).  The checker can panic while it lowers one chunk in the
-    context an earlier analysis left (`... has qvar`); the didChange handler (quick_check_file: HIRDiff::new,
-    HIRDiff::fix) then panics although a fresh analysis of the same text does not.  The guard of theorems 6 and 7,
-    [Known_C29 = lower_total lower]: lowering never panics.  In the model: *)
+Example quick_check_exact_ex :
+  aligned w_lower [1; 2] [1; 2] /\ edit1 [1; 2] [1; 3; 2] /\ ~ edit1 [1; 2] [1; 3; 4; 2].
+Proof.
+  split; [reflexivity|]. split; [exact (E1_ins [1] 3 [2])|].
+  intros H. apply diff_update_exact_iff in H. destruct H as [d [H1 H2]].
+  vm_compute in H1. injection H1 as <-. vm_compute in H2. discriminate.
+Qed.
+
+(** 5b. cache invariant: along every history the cached AST is the AST of ONE text the server has seen (the opened
+        text or the text of some didChange) — never a mixture of two texts; whatever lowering does *)
+Theorem cached_ast_is_exact :
+  forall lower cname hname hfailed (D : Type) (check : text -> D) full_hir textcmp t0 d0 evs s,
+  run lower cname hname hfailed D check full_hir textcmp (open D check full_hir t0 d0) evs = Ok s ->
+  exists e t, f_mod D s = Some e /\ e_ast e = Some (ast_of t) /\
+              In t (t0 :: texts_of evs).
+Proof. intros. eapply cache_exact_l; eauto. Qed.
+
+(** The checker can panic while it lowers one chunk in the context an earlier analysis left (observed before the
+    repair 58948d36, when quick_check_file lowered a chunk against a cache that an inexact diff had corrupted:
+    `... has qvar`, corpus/C29/w3).  That the checker does not panic is property C07, not this one: theorems 6 and 7
+    carry it as the hypothesis [lower_total lower].  It is needed: *)
 Theorem quick_check_lower_panic_refuted :
   run wp_lower w_name w_name w_failed text w_check w_full_hir true (open text w_check w_full_hir w2_t0 [])
       [EChange true [(1, 0); (2, 1)]; EChange true [(1, 0); (2, 2)]] = Panic.
 Proof. exact lower_panic_refuted_l. Qed.
 
-(** 6. outside that class no history makes the modelled handlers panic (with or without the text comparison) *)
+(** 6. when lowering does not panic, no history makes the modelled handlers panic (with or without the text
+       comparison) *)
 Theorem run_no_panic :
   forall lower cname hname hfailed (D : Type) (check : text -> D) full_hir textcmp evs s,
   lower_total lower ->
